@@ -25,6 +25,7 @@ Range(s) == {s[i] : i \in DOMAIN s}
 
 \* absent optional account / identifier (the numeric None of Formulas carries N0 and cannot sit in a set with strings)
 NoneS == [some |-> FALSE, v |-> ""]
+NoneI == [some |-> FALSE, v |-> 0]          \* absent optional small integer (page limit, code id)
 
 Native(d) == [native |-> TRUE,  id |-> d]
 Token(t)  == [native |-> FALSE, id |-> t]
